@@ -219,7 +219,10 @@ def port_table_rule(F, rep):
                     for a in tir.walk(n["body"]):
                         if a.get("k") == "Assign":
                             l = strip(a["l"])
-                            if l.get("k") == "Index" and tir.pretty(l["index"]).startswith("(%s.port as usize" % p_name) and L.local_name(a["r"]) == i_name:
+                            ix = strip(l["index"]) if l.get("k") == "Index" else {}
+                            while ix.get("k") == "Cast" and ix.get("ty") in ("usize", "u8", "u16", "u32", "u64"):
+                                ix = strip(ix["e"])          # `p.port as usize`, `(p.port as u8) as usize`: the discriminant, widened
+                            if l.get("k") == "Index" and tir.place(ix) == "%s.port" % p_name and strip(l["index"]).get("k") == "Cast" and L.local_name(a["r"]) == i_name:
                                 ok = True
     rep.ob("ports.index-table", ok, fn, "port_indexes", "port_indexes[p.port] must be the position of p in the same occupancy sequence (enumerate index)")
     # order preserved by Frame::with_capacity and port_occupancy
@@ -455,6 +458,36 @@ def items_rule(F, G, rep):
         rep.ob("items.slice", len(leaves) == 1 and leaves[0].get("exact") and leaves[0].get("offsets") == "self.item_offset", "frame::%s::Frame::transpose_one" % fam, "items", "items of a row must be the slice delimited by item_offset.start_end(i)")
 
 
+def column_gates_rule(F, rep, M):
+    """the start / end / item columns exist exactly for the versions whose files carry Frame Start / Frame End / Item events
+    (spec: 2.2 / 3.0 / 3.0): a column allocated for a version that never feeds it stays empty while the rows grow, one missing
+    where events arrive loses them"""
+    import layout as L
+    b = F.body("frame::mutable::Frame::with_capacity")
+    if b is None:
+        rep.ob("columns.event-gates", False, "frame::mutable::Frame::with_capacity", "missing", "Frame::with_capacity not found")
+        return
+    try:
+        items = L.x_with_capacity(b)
+    except L.Unsupported as e:
+        rep.cannot("columns.event-gates", "frame::mutable::Frame::with_capacity", e)
+        return
+    gates = {}
+    for it in items:
+        if it[0] == "gate":
+            for l in L.tree_leaves(it[2]):
+                gates[l["field"]] = it[1]
+    n = 0
+    for col, ev in (("start", "Start"), ("end", "End"), ("item", "Item")):
+        since = model.parse_ver(M.spec[ev].get("since") or "0.1")
+        g = gates.get(col)
+        ok = g is not None and all(L.feval(g, v) == (v >= since) for v in M.classes)
+        n += 1
+        rep.ob("columns.event-gates", ok, "frame::mutable::Frame::with_capacity", col,
+               "the `%s` column must exist exactly for versions >= %s (the versions with %s events); it exists under %s" % (col, model.vstr(since), ev, L.fstr(g) if g else "no version gate"))
+    rep.floor("event-gated frame columns", n, 3)
+
+
 def structure_rules(F, G, rep, M):
     """the reader's frame structure as a whole: one row per frame in every column, each value in the row and character of its
     own event. Every property whose statement depends on rows being where their events put them runs this set."""
@@ -465,6 +498,7 @@ def structure_rules(F, G, rep, M):
     padding_rule(F, G, rep)
     bracketing_rule(F, G, rep, M)
     items_rule(F, G, rep)
+    column_gates_rule(F, rep, M)
     # the walkers above resolve `version.gte(M, m)` / `version.lt(M, m)` by their specification: that is what the functions
     # compute (E5), or every "simulate Frame End below 3.0" gate means something else
     if not any(k.startswith("E5.gte") for k in rep.counts):
